@@ -1,0 +1,26 @@
+//go:build verif
+
+package dir
+
+import (
+	"github.com/mit-pdos/go-nfsd/fstxn"
+)
+
+// verifName reports a name lookup / insertion / removal in directory dinum to
+// the verification observer (see /verif/DESIGN.md, Section 6).  The argument
+// identifies (directory, name) by a 64-bit FNV-1a hash.
+func verifName(kind string, op *fstxn.FsTxn, dinum uint64, name string) {
+	if fstxn.VerifObserver == nil || name == "." || name == ".." {
+		return
+	}
+	h := uint64(14695981039346656037)
+	for i := 0; i < 8; i++ {
+		h ^= (dinum >> (8 * uint(i))) & 0xff
+		h *= 1099511628211
+	}
+	for i := 0; i < len(name); i++ {
+		h ^= uint64(name[i])
+		h *= 1099511628211
+	}
+	fstxn.VerifEvent(kind, op, h)
+}
